@@ -190,9 +190,13 @@ pub fn addr_of(a: &AddrKey) -> Addr {
 }
 
 /// the event a NIP-62 vanish request would be (only its pubkey matters to the store)
-pub fn vanish_event(pk: &B32) -> OwnedEvent {
+pub fn vanish_spec(pk: &B32) -> EvSpec {
     let mut id = *pk;
     id[0] ^= 0xa5;
     id[31] ^= 0x5a;
-    encode(&EvSpec { id, pk: *pk, kind: 62, at: 1, tags: vec![vec!["relay".into(), "ALL_RELAYS".into()]], content: vec![] })
+    EvSpec { id, pk: *pk, kind: 62, at: 1, tags: vec![vec!["relay".into(), "ALL_RELAYS".into()]], content: vec![] }
+}
+
+pub fn vanish_event(pk: &B32) -> OwnedEvent {
+    encode(&vanish_spec(pk))
 }
